@@ -12,3 +12,203 @@ Lemma tables_as_modelled :
   /\ brace_exclude_chars = [LBRACE; RBRACE] /\ brace_white_arg = [SP] /\ brace_opener = [LBRACE] /\ brace_closer = [RBRACE]
   /\ junos_comment_delims = [[HASH]].
 Proof. repeat split; vm_compute; reflexivity. Qed.
+
+(* ================================================================== characters *)
+Lemma printable_range c : is_printable c = true -> (33 <= c <= 126)%N.
+Proof. unfold is_printable. intros H. apply andb_true_iff in H. destruct H as [A B]. apply N.leb_le in A, B. lia. Qed.
+
+Lemma range_enum c : (33 <= c <= 126)%N -> In c (map N.of_nat (seq 33 94)).
+Proof.
+  intros H. apply in_map_iff. exists (N.to_nat c). split; [apply N2Nat.id|]. apply in_seq. lia.
+Qed.
+
+Lemma printable_not_space c : is_printable c = true -> is_space c = false.
+Proof.
+  intros H. apply printable_range in H. apply range_enum in H.
+  assert (A : forallb (fun c => negb (is_space c)) (map N.of_nat (seq 33 94)) = true) by (vm_compute; reflexivity).
+  rewrite forallb_forall in A. specialize (A c H). apply negb_true_iff in A. exact A.
+Qed.
+Lemma printable_facts c : is_printable c = true ->
+  is_pp_white c = false /\ N.eqb c SP = false /\ N.eqb c TAB = false /\ N.eqb c NL = false /\ N.eqb c CRc = false.
+Proof.
+  intros H. apply printable_range in H. unfold is_pp_white, SP, TAB, NL, CRc.
+  assert (A1 : N.eqb c 32 = false) by (apply N.eqb_neq; lia).
+  assert (A2 : N.eqb c 9 = false) by (apply N.eqb_neq; lia).
+  assert (A3 : N.eqb c 10 = false) by (apply N.eqb_neq; lia).
+  assert (A4 : N.eqb c 13 = false) by (apply N.eqb_neq; lia).
+  rewrite A1, A2, A3, A4. repeat split; reflexivity.
+Qed.
+
+(* a content character other than the space is a printable non-brace *)
+Lemma content_nonspace c : is_content c = true -> N.eqb c SP = false -> is_printable c = true /\ is_brace c = false.
+Proof.
+  unfold is_content. intros H Hs. rewrite Hs, orb_false_r in H. apply andb_true_iff in H. destruct H as [A B].
+  apply negb_true_iff in B. auto.
+Qed.
+Lemma brace_split c : is_brace c = false -> N.eqb c LBRACE = false /\ N.eqb c RBRACE = false.
+Proof. unfold is_brace. intros H. apply orb_false_iff in H. exact H. Qed.
+
+Lemma sp_content : is_content SP = true. Proof. reflexivity. Qed.
+Lemma semi_content : is_content SEMI = true. Proof. reflexivity. Qed.
+Lemma sp_space : is_space SP = true. Proof. reflexivity. Qed.
+
+Lemma all_sp_cons c r : all_sp (c :: r) = true -> c = SP /\ all_sp r = true.
+Proof.
+  unfold all_sp. cbn [forallb]. intros H. apply andb_true_iff in H. destruct H as [Hc Hr].
+  apply N.eqb_eq in Hc. split; [symmetry; exact Hc | exact Hr].
+Qed.
+Lemma all_sp_content s : all_sp s = true -> forallb is_content s = true.
+Proof.
+  induction s as [|c r IH]; intros H; [reflexivity|].
+  apply all_sp_cons in H. destruct H as [Hc Hr]. subst c. cbn [forallb]. rewrite (IH Hr). reflexivity.
+Qed.
+Lemma all_sp_space s : all_sp s = true -> forallb is_space s = true.
+Proof.
+  induction s as [|c r IH]; intros H; [reflexivity|].
+  apply all_sp_cons in H. destruct H as [Hc Hr]. subst c. cbn [forallb]. rewrite (IH Hr). reflexivity.
+Qed.
+Lemma all_sp_app a b : all_sp (a ++ b) = (all_sp a && all_sp b)%bool.
+Proof. unfold all_sp. apply forallb_app. Qed.
+Lemma all_ws_app a b : all_ws (a ++ b) = (all_ws a && all_ws b)%bool.
+Proof. unfold all_ws. apply forallb_app. Qed.
+
+Lemma ws3_white c : is_ws3 c = true -> is_pp_white c = true.
+Proof.
+  unfold is_ws3, is_pp_white. intros H. apply orb_true_iff in H. destruct H as [H|H].
+  - apply orb_true_iff in H. destruct H as [H|H]; rewrite H; [reflexivity | rewrite orb_true_r; reflexivity].
+  - rewrite H. rewrite !orb_true_r. reflexivity.
+Qed.
+Lemma ws3_cases c : is_ws3 c = true -> c = SP \/ (is_lb c = true /\ is_content c = false).
+Proof.
+  unfold is_ws3, is_lb. intros H. apply orb_true_iff in H. destruct H as [H|H].
+  - apply orb_true_iff in H. destruct H as [H|H].
+    + left. apply N.eqb_eq in H. exact H.
+    + right. apply N.eqb_eq in H. subst c. split; reflexivity.
+  - right. apply N.eqb_eq in H. subst c. split; reflexivity.
+Qed.
+Lemma lb_not_content c : is_lb c = true -> is_content c = false.
+Proof.
+  unfold is_lb. intros H. apply orb_true_iff in H. destruct H as [H|H]; apply N.eqb_eq in H; subst c; reflexivity.
+Qed.
+Lemma lb_white c : is_lb c = true -> is_pp_white c = true.
+Proof.
+  unfold is_lb. intros H. apply orb_true_iff in H. destruct H as [H|H]; apply N.eqb_eq in H; subst c; reflexivity.
+Qed.
+
+(* ================================================================== strip / unpack *)
+Lemma forallb_app_true {A} (p : A -> bool) a b : forallb p a = true -> forallb p b = true -> forallb p (a ++ b) = true.
+Proof. intros Ha Hb. rewrite forallb_app, Ha, Hb. reflexivity. Qed.
+Lemma lstrip_by_all p s t : forallb p s = true -> lstrip_by p (s ++ t) = lstrip_by p t.
+Proof.
+  induction s as [|c r IH]; simpl; intros H; [reflexivity|].
+  apply andb_true_iff in H. destruct H as [Hc Hr]. rewrite Hc. apply IH. exact Hr.
+Qed.
+Lemma forallb_rev' {A} (p : A -> bool) l : forallb p (rev l) = forallb p l.
+Proof.
+  induction l as [|a l IH]; simpl; [reflexivity|].
+  rewrite forallb_app, IH. simpl. rewrite andb_true_r. apply andb_comm.
+Qed.
+
+(* x ends with a character that is not stripped; sp is stripped entirely *)
+Lemma rstrip_by_tail p x l sp : p l = false -> forallb p sp = true ->
+  rstrip_by p ((x ++ [l]) ++ sp) = x ++ [l].
+Proof.
+  intros Hl Hsp. unfold rstrip_by. rewrite rev_app_distr.
+  rewrite lstrip_by_all by (rewrite forallb_rev'; exact Hsp).
+  rewrite rev_app_distr. cbn [rev app lstrip_by]. rewrite Hl. cbn [rev]. rewrite rev_involutive. reflexivity.
+Qed.
+
+(* a string with first character c0 and last character l, neither of them white *)
+Lemma strip_core c0 x l sp : is_space c0 = false -> is_space l = false -> forallb is_space sp = true ->
+  strip ((c0 :: x ++ [l]) ++ sp) = c0 :: x ++ [l].
+Proof.
+  intros H0 Hl Hsp. unfold strip, strip_by. simpl lstrip_by. rewrite H0.
+  change (c0 :: (x ++ [l]) ++ sp) with (((c0 :: x) ++ [l]) ++ sp).
+  rewrite rstrip_by_tail by assumption. reflexivity.
+Qed.
+Lemma strip_single c0 sp : is_space c0 = false -> forallb is_space sp = true -> strip (c0 :: sp) = [c0].
+Proof.
+  intros H0 Hsp. unfold strip, strip_by. simpl lstrip_by. rewrite H0.
+  change (c0 :: sp) with (([] ++ [c0]) ++ sp). rewrite rstrip_by_tail by assumption. reflexivity.
+Qed.
+
+(* decomposition of a non-empty list into first / middle / last *)
+Lemma first_last (s : str) : s <> [] -> (exists c, s = [c]) \/ (exists c x l, s = c :: x ++ [l]).
+Proof.
+  destruct s as [|c r]; [congruence|]. intros _.
+  destruct r as [|c2 r2]; [left; eauto|]. right.
+  destruct (exists_last (l := c2 :: r2)) as [x [l E]]; [discriminate|]. exists c, x, l. rewrite E. reflexivity.
+Qed.
+
+Lemma rev_last_cons (x : str) l : rev (x ++ [l]) = l :: rev x.
+Proof. rewrite rev_app_distr. reflexivity. Qed.
+
+(* strip of  text ++ spaces  for a text whose first and last characters are not white *)
+Lemma strip_text t sp :
+  match t with c :: _ => is_space c = false | [] => False end ->
+  match rev t with l :: _ => is_space l = false | [] => False end ->
+  forallb is_space sp = true -> strip (t ++ sp) = t.
+Proof.
+  intros Hf Hl Hsp. destruct (first_last t) as [[c E]|[c [x [l E]]]].
+  - destruct t; [contradiction | discriminate].
+  - subst t. simpl in Hf. simpl. apply strip_single; assumption.
+  - subst t. simpl in Hf. change (rev (c :: x ++ [l])) with (rev ((c :: x) ++ [l])) in Hl.
+    rewrite rev_last_cons in Hl. apply strip_core; assumption.
+Qed.
+
+Lemma drop_semi_yes x : drop_semi (x ++ [SEMI]) = x.
+Proof. unfold drop_semi. rewrite rev_last_cons. simpl. apply rev_involutive. Qed.
+Lemma drop_semi_no t : match rev t with l :: _ => N.eqb l SEMI = false | [] => True end -> drop_semi t = t.
+Proof. unfold drop_semi. destruct (rev t) as [|l r]; [reflexivity|]. intros H. rewrite H. reflexivity. Qed.
+
+(* facts packed in wf_text *)
+Lemma wf_text_facts t : wf_text t = true ->
+  exists c0 t', t = c0 :: t' /\ forallb is_content t = true /\ is_printable c0 = true /\ is_brace c0 = false
+    /\ N.eqb c0 DQ = false /\ N.eqb c0 SQ = false
+    /\ match rev t with l :: _ => is_space l = false /\ N.eqb l SEMI = false | [] => False end.
+Proof.
+  unfold wf_text. destruct t as [|c0 t']; [discriminate|]. intros H.
+  apply andb_true_iff in H. destruct H as [H H5].
+  apply andb_true_iff in H. destruct H as [H Hsq].
+  apply andb_true_iff in H. destruct H as [H Hdq].
+  apply andb_true_iff in H. destruct H as [H Hsp].
+  apply negb_true_iff in Hsp, Hdq, Hsq.
+  assert (Hc0 : is_content c0 = true).
+  { cbn [forallb] in H. apply andb_true_iff in H. tauto. }
+  destruct (content_nonspace c0 Hc0 Hsp) as [Hp Hb].
+  exists c0, t'. repeat split; try assumption.
+  - destruct (rev (c0 :: t')) as [|l r] eqn:E; [discriminate|].
+    apply andb_true_iff in H5. destruct H5 as [L1 L2]. apply negb_true_iff in L1, L2.
+    assert (Hl : In l (c0 :: t')) by (apply in_rev; rewrite E; left; reflexivity).
+    rewrite forallb_forall in H. specialize (H l Hl).
+    destruct (content_nonspace l H L1) as [Hpl _]. apply printable_not_space in Hpl. tauto.
+Qed.
+
+(* the token of a statement unpacks to the indented statement text *)
+Lemma unpack_raw sw d text trail (semi : bool) trail2 sp :
+  wf_text text = true -> all_sp trail = true -> all_sp trail2 = true -> all_sp sp = true ->
+  unpack sw (d, text ++ trail ++ (if semi then [SEMI] else []) ++ trail2 ++ sp) = indent_of sw d ++ text.
+Proof.
+  intros Ht H1 H2 H3. destruct (wf_text_facts text Ht) as [c0 [t' [E [Hc [Hp [Hb [Hdq [Hsq Hl]]]]]]]].
+  unfold unpack, indent_of. cbn [fst snd]. f_equal.
+  assert (Hf : match text with c :: _ => is_space c = false | [] => False end).
+  { rewrite E. apply printable_not_space. exact Hp. }
+  assert (Hl1 : match rev text with l :: _ => is_space l = false | [] => False end).
+  { destruct (rev text); [exact Hl | tauto]. }
+  apply all_sp_space in H1. apply all_sp_space in H2. apply all_sp_space in H3.
+  destruct semi.
+  - replace (text ++ trail ++ [SEMI] ++ trail2 ++ sp) with (((text ++ trail) ++ [SEMI]) ++ (trail2 ++ sp))
+      by (rewrite <- !app_assoc; reflexivity).
+    assert (S1 : strip (((text ++ trail) ++ [SEMI]) ++ trail2 ++ sp) = (text ++ trail) ++ [SEMI]).
+    { apply strip_text.
+      - rewrite E. simpl. apply printable_not_space. exact Hp.
+      - rewrite rev_last_cons. reflexivity.
+      - apply forallb_app_true; assumption. }
+    rewrite S1. rewrite drop_semi_yes. apply strip_text; assumption.
+  - simpl app.
+    assert (S1 : strip (text ++ trail ++ trail2 ++ sp) = text).
+    { apply strip_text; try assumption. repeat apply forallb_app_true; assumption. }
+    rewrite S1. rewrite drop_semi_no.
+    + rewrite <- (app_nil_r text) at 1. apply strip_text; try assumption. reflexivity.
+    + destruct (rev text); [exact I | tauto].
+Qed.
